@@ -31,10 +31,16 @@ Length == /\ out.op = "init" /\ PDim(sh) = 1 /\ ~sh.rat
    /\ LET C == Ctrlpts(sh) n == Len(C) IN
       out' = [op |-> "length", chord2 |-> Dist2(Point(sh, <<DomLo(sh.deg[1], sh.kv[1])>>), Point(sh, <<DomHi(sh.deg[1], sh.kv[1])>>)),
               poly2 |-> [i \in 1..(n - 1) |-> Dist2(C[i], C[i + 1])], clamped |-> Clamped(sh.deg[1], sh.kv[1])] /\ UNCHANGED sh
+\* clamped surfaces and volumes: the sampled grid starts at the first and ends at the last control point
+AllClamped == \A d \in 1..PDim(sh) : Clamped(sh.deg[d], sh.kv[d])
+Ends == /\ out.op = "init" /\ PDim(sh) >= 2 /\ AllClamped
+   /\ LET C == Ctrlpts(sh) lo == [d \in 1..PDim(sh) |-> DomLo(sh.deg[d], sh.kv[d])] hi == [d \in 1..PDim(sh) |-> DomHi(sh.deg[d], sh.kv[d])] IN
+      out' = [op |-> "ends", first |-> C[1], last |-> C[Len(C)], plo |-> Point(sh, lo), phi |-> Point(sh, hi), bbox |-> BBox(sh)] /\ UNCHANGED sh
 PQ == IF PDim(sh) = 1 THEN 2 ELSE 1
-Next == (\E prm \in ShapeParams(sh, PQ) : Hull(prm)) \/ Length
+Next == (\E prm \in ShapeParams(sh, PQ) : Hull(prm)) \/ Length \/ Ends
 Spec == Init /\ [][Next]_vars
 
+T_Ends == out.op = "ends" => out.plo = out.first /\ out.phi = out.last
 T_Hull == out.op = "hull" =>
    LET C == Ctrlpts(sh) IN
    /\ \A x \in 1..Len(out.cert) : RGe(out.cert[x].lam, Zero)
